@@ -36,7 +36,7 @@ SpawnKinds == {"apply", "map", "starmap", "doublestarmap", "start"}
 MapKinds   == {"map", "starmap", "doublestarmap"}
 
 NewT(pos) == [r |-> -2, j |-> -1, began |-> FALSE, fin |-> "no", ccb |-> "no", ecb |-> "no",
-              owed |-> FALSE, everOwed |-> FALSE, late |-> FALSE, grp |-> "", settled |-> FALSE, cpos |-> pos]
+              owed |-> FALSE, everOwed |-> FALSE, late |-> FALSE, failed |-> FALSE, grp |-> "", settled |-> FALSE, cpos |-> pos]
 
 NoReq == [acc |-> FALSE, kind |-> "none", num |-> 0, nc |-> 1, gname |-> "", exp |-> <<>>, calls |-> 0,
           raised |-> 0, pulls |-> 0, stopSeen |-> FALSE, cancelled |-> FALSE, kfE |-> FALSE,
@@ -196,7 +196,7 @@ OnResume(g, e) ==
 
 OnFin(g, e) ==
   LET t == g.T[e.id]
-  IN Out([g EXCEPT !.T = Upd(g.T, e.id, [t EXCEPT !.fin = e.how]),
+  IN Out([g EXCEPT !.T = Upd(g.T, e.id, [t EXCEPT !.fin = e.how, !.failed = @ \/ e.how = "exc"]),
                    !.inj = IF e.how = "exc" THEN @ \cup {"w-" \o ToString(e.id)} ELSE @,
                    !.anyExc = @ \/ e.how = "exc"],
          Chk("C03.trans", e.id, t.began /\ t.fin = "no"), Hit("C12.worker", e.how = "exc"))
@@ -219,7 +219,8 @@ OnCbIn(g, e, which) ==
 OnCbOut(g, e, which) ==
   LET t  == g.T[e.id]
       ok == IF which = "ccb" THEN t.ccb = "in" ELSE t.ecb = "in"
-      t2 == IF which = "ccb" THEN [t EXCEPT !.ccb = "out"] ELSE [t EXCEPT !.ecb = "out"]
+      t1 == IF which = "ccb" THEN [t EXCEPT !.ccb = "out"] ELSE [t EXCEPT !.ecb = "out"]
+      t2 == [t1 EXCEPT !.failed = @ \/ e.how = "exc"]
   IN Out([g EXCEPT !.T = Upd(g.T, e.id, t2),
                    !.inj = IF e.how = "exc" THEN @ \cup {which \o "-" \o ToString(e.id)} ELSE @,
                    !.anyExc = @ \/ e.how = "exc",
@@ -450,6 +451,12 @@ OnHDone(g, e) ==
                     \cup UNION {Chk("C08.wait", r, (g.alive \cap {id \in g.C : g.T[id].r = r}) = {}) : r \in h.reqs}
                ELSE {}
       vUntil == IF h.kind = "until" THEN Chk("C08.until", e.h, okRes => g.closed) ELSE {}
+      (* C12: the exception of a failed task is what flush()/gather_and_close() raise - it is not swallowed: a call
+         without return_exceptions that has awaited a failed task cannot have returned normally *)
+      awaited == IF h.kind = "flush" THEN h.mustF \ (g.forgot \cup g.maybe)
+                 ELSE IF h.kind = "gac" THEN h.tasks \ (g.forgot \cup g.maybe) ELSE {}
+      vRep == IF okRes /\ ~h.re /\ h.kind # "until" /\ ~h.overlap
+              THEN UNION {Chk("C12.reported", id, ~g.T[id].failed) : id \in awaited} ELSE {}
       notAlive == g.C \ g.alive
       g2 == IF h.kind = "flush" /\ ~cancelled /\ (okRes \/ TRUE)
             THEN [g EXCEPT !.forgot = IF okRes THEN @ \cup h.mustF ELSE @,
@@ -462,7 +469,7 @@ OnHDone(g, e) ==
             ELSE IF h.kind = "gac" /\ ~okRes /\ ~cancelled
             THEN [g EXCEPT !.maybe = @ \cup (notAlive \ g.forgot)]
             ELSE g
-  IN Out([g2 EXCEPT !.H = Upd(g.H, e.h, [h EXCEPT !.st = "done"])], vSurf \cup vWait \cup vUntil,
+  IN Out([g2 EXCEPT !.H = Upd(g.H, e.h, [h EXCEPT !.st = "done"])], vSurf \cup vWait \cup vUntil \cup vRep,
          Hit("C08.wait", h.kind = "gac" /\ okRes) \cup Hit("C08.pending", h.kind = "gac" /\ okRes /\ h.tasks # {})
          \cup Hit("C13.forget", h.kind = "flush" /\ okRes /\ h.mustF # {})
          \cup Hit("C13.flush", h.kind = "flush" /\ okRes)
@@ -627,7 +634,7 @@ Clauses(p) ==       \* the clause names of each property (used by the model-chec
     [] p = "C09" -> {"C09.err", "C09.lock", "C09.noeffect"}
     [] p = "C10" -> {"C10.disjoint", "C10.exact", "C10.member", "C10.names", "C10.unknown"}
     [] p = "C11" -> {"C11.dense", "C11.name", "C11.pools", "C11.reuse"}
-    [] p = "C12" -> {"C12.surface", "C12.others"}
+    [] p = "C12" -> {"C12.surface", "C12.others", "C12.reported"}
     [] p = "C13" -> {"C13.forget", "C13.keep", "C13.nothrow"}
     [] p = "C14" -> {"C14.count", "C14.lifo"}
     [] p = "C15" -> {"C15.get", "C15.limit", "C15.neg", "C15.raise", "C15.set"}
